@@ -6,6 +6,7 @@ package deployment
 
 import (
 	"context"
+	"fmt"
 	"strings"
 
 	"github.com/openkruise/rollouts/api/v1alpha1"
@@ -79,12 +80,14 @@ func c05Finalize(faults bool, p string) {
 	d.Status.AvailableReplicas = int32(verifrt.IntRange("st.available", 0, 2000))
 	alreadyRestored := verifrt.Bool("alreadyRestored")
 	userMaxUnavailable := intstr.FromInt(verifrt.IntRange("user.maxUnavailable", 0, 1000))
-	one := intstr.FromInt(1)
+	userMaxSurge := intstr.FromInt(verifrt.IntRange("user.maxSurge", 0, 1000))
+	userMinReady := int32(verifrt.IntRange("user.minReadySeconds", 0, 3600))
+	userDeadline := int32(verifrt.IntRange("user.progressDeadlineSeconds", 1, 100000))
 	if alreadyRestored {
 		d.Spec.Strategy.RollingUpdate.MaxUnavailable = &userMaxUnavailable
 	} else {
-		setting := control.OriginalDeploymentStrategy{MaxUnavailable: &userMaxUnavailable, MaxSurge: &one, MinReadySeconds: 0}
-		pd := int32(600)
+		setting := control.OriginalDeploymentStrategy{MaxUnavailable: &userMaxUnavailable, MaxSurge: &userMaxSurge, MinReadySeconds: userMinReady}
+		pd := userDeadline
 		setting.ProgressDeadlineSeconds = &pd
 		d.Annotations = map[string]string{
 			util.BatchReleaseControlAnnotation:           "{}",
@@ -147,6 +150,21 @@ func c05Finalize(faults bool, p string) {
 			ok = ok && has && v == "null"
 		}
 		verifrt.Assert(ok, p+".bgdeploy.finalize.markersRemoved")
+		if len(ws) == 1 {
+			// the user's settings, as saved by Initialize, are what the patch writes back
+			get := func(path ...string) string {
+				v, has := verifrt.JSONGet(ws[0].Body, path...)
+				if !has {
+					return "<absent>"
+				}
+				return v
+			}
+			verifrt.Assert(get("spec", "minReadySeconds") == fmt.Sprintf("%d", userMinReady), p+".bgdeploy.finalize.restoresMinReadySeconds")
+			verifrt.Assert(get("spec", "progressDeadlineSeconds") == fmt.Sprintf("%d", userDeadline), p+".bgdeploy.finalize.restoresProgressDeadline")
+			verifrt.Assert(get("spec", "strategy", "rollingUpdate", "maxSurge") == fmt.Sprintf("%d", userMaxSurge.IntVal), p+".bgdeploy.finalize.restoresMaxSurge")
+			verifrt.Assert(get("spec", "strategy", "rollingUpdate", "maxUnavailable") == fmt.Sprintf("%d", userMaxUnavailable.IntVal), p+".bgdeploy.finalize.restoresMaxUnavailable")
+			verifrt.Assert(get("spec", "paused") == "false", p+".bgdeploy.finalize.unpauses")
+		}
 	}
 	verifrt.Cover(p + ".bgdeploy.done")
 }
